@@ -552,6 +552,77 @@ func ruleSyncRedirect(c *Ctx, r *Rep, tier string) {
 				return
 			}
 			if !fromPool(call.Call.Args[0], map[ssa.Value]bool{}) {
+				// the receiver is a parameter of a helper: decided per call site
+				// that hands the helper a pool decompressor, under what that site
+				// knows about the Reader's mode (Reader.dec == nil)
+				if pi := paramIndexThroughIdentity(call.Call.Args[0], fn, identity); pi >= 0 {
+					for _, g := range m.fns {
+						if m.goEntry[g] || rootFn(g).Name() == m.cfg.newReader {
+							continue
+						}
+						g := g
+						allInstrs(g, func(x ssa.Instruction) {
+							cs, ok := x.(*ssa.Call)
+							if !ok || staticCallee(&cs.Call) != fn || pi >= len(cs.Call.Args) || !fromPool(cs.Call.Args[pi], map[ssa.Value]bool{}) {
+								return
+							}
+							k++
+							r.Instance(rule, 1)
+							key := fmt.Sprintf("%s#sync-redirect-via:%s~%d", c.FnName(g), fn.Name(), k)
+							facts := receiverFactsAt(g, cs)
+							edgeOK := func(from, to *ssa.BasicBlock) bool {
+								ifi := ifOf(from)
+								if ifi == nil || from.Succs[0] == from.Succs[1] {
+									return true
+								}
+								bo, ok := ifi.Cond.(*ssa.BinOp)
+								if !ok || (bo.Op != token.EQL && bo.Op != token.NEQ) || !isNilConst(bo.Y) {
+									return true
+								}
+								f, base := loadedField(bo.X)
+								if f == nil || len(fn.Params) == 0 || origin(base) != ssa.Value(fn.Params[0]) {
+									return true
+								}
+								isNil, known := facts[f]
+								if !known {
+									return true
+								}
+								nilEdge := 0
+								if bo.Op == token.NEQ {
+									nilEdge = 1
+								}
+								want := nilEdge
+								if !isNil {
+									want = 1 - nilEdge
+								}
+								return from.Succs[want] == to
+							}
+							var redirects func(y ssa.Instruction, depth int) bool
+							redirects = func(y ssa.Instruction, depth int) bool {
+								if m.isEff("send:control")(y) {
+									return true
+								}
+								cl, ok := y.(*ssa.Call)
+								if !ok || depth > 2 {
+									return false
+								}
+								callee := staticCallee(&cl.Call)
+								if callee == nil || callee.Blocks == nil || callee.Pkg != fn.Pkg {
+									return false
+								}
+								_, all := mustPass(entryLoc(callee), isReturn, func(z ssa.Instruction) bool { return redirects(z, depth+1) }, nil)
+								return all
+							}
+							_, inHelper := mustPass(locOf(call), isReturn, func(y ssa.Instruction) bool { return redirects(y, 0) }, edgeOK)
+							_, inCaller := mustPass(locOf(cs), isReturn, func(y ssa.Instruction) bool { return redirects(y, 0) }, nil)
+							why := ""
+							if !inHelper && !inCaller {
+								why = "after the Reader has filled a pool decompressor itself (through " + fn.Name() + ") a return can be reached without a send on control: the read-ahead goroutine stays where it was – elsewhere, or parked at the end of its chain – and the next wait on working does not return"
+							}
+							r.Check(why == "", rule, key, c.Pos(cs.Pos()), "a synchronous read with a pool decompressor is followed by a redirect on every path (helper examined under the caller's Reader mode)", why)
+						})
+					}
+				}
 				return
 			}
 			k++
@@ -2294,4 +2365,66 @@ func isResultBase(c *Ctx, ins ssa.Instruction, fCur *types.Var) bool {
 		return false
 	}
 	return fromWait(call.Call.Value, 0)
+}
+
+// paramIndexThroughIdentity: v is parameter i of fn, possibly through methods
+// that return their receiver; −1 otherwise.
+func paramIndexThroughIdentity(v ssa.Value, fn *ssa.Function, identity func(*ssa.Function) bool) int {
+	for depth := 0; depth < 4; depth++ {
+		if call, ok := v.(*ssa.Call); ok {
+			if callee := staticCallee(&call.Call); identity(callee) && len(call.Call.Args) > 0 {
+				v = call.Call.Args[0]
+				continue
+			}
+		}
+		break
+	}
+	for i, p := range fn.Params {
+		if ssa.Value(p) == v {
+			return i
+		}
+	}
+	return -1
+}
+
+// receiverFactsAt: which pointer fields of g's receiver are known nil / non-nil
+// at the call cs – the call is dominated by an edge of a test of the field, and
+// g does not assign the field.
+func receiverFactsAt(g *ssa.Function, cs *ssa.Call) map[*types.Var]bool {
+	facts := map[*types.Var]bool{}
+	if len(g.Params) == 0 {
+		return facts
+	}
+	stored := map[*types.Var]bool{}
+	allInstrs(g, func(ins ssa.Instruction) {
+		if st, ok := ins.(*ssa.Store); ok {
+			if fa, ok := st.Addr.(*ssa.FieldAddr); ok {
+				stored[fieldVarOfAddr(fa)] = true
+			}
+		}
+	})
+	for _, b := range g.Blocks {
+		ifi := ifOf(b)
+		if ifi == nil || b.Succs[0] == b.Succs[1] {
+			continue
+		}
+		bo, ok := ifi.Cond.(*ssa.BinOp)
+		if !ok || (bo.Op != token.EQL && bo.Op != token.NEQ) || !isNilConst(bo.Y) {
+			continue
+		}
+		f, base := loadedField(bo.X)
+		if f == nil || origin(base) != ssa.Value(g.Params[0]) || stored[f] {
+			continue
+		}
+		nilEdge := 0
+		if bo.Op == token.NEQ {
+			nilEdge = 1
+		}
+		if dominatedByEdge(g, b, nilEdge, cs.Block()) {
+			facts[f] = true
+		} else if dominatedByEdge(g, b, 1-nilEdge, cs.Block()) {
+			facts[f] = false
+		}
+	}
+	return facts
 }
